@@ -849,12 +849,24 @@ func (w *w4World) dump(db *DBV2) (w4Dump, error) {
 	}
 	// flood-limit rows (white box: the public ResetFlood reports an unrelated metric's budget)
 	err = db.eng.Do(ctx, "dump_flood", func(conn sqlite.Conn, cache []byte) ([]byte, error) {
-		rows := conn.Query("dump_flood", "SELECT metric_name, last_time_update, count_free FROM flood_limits ORDER BY metric_name")
+		// typeof(): a key stored as TEXT is a different key than the same bytes stored as BLOB (the
+		// server looks budgets up with a BLOB parameter), so the storage class is part of the state
+		rows := conn.Query("dump_flood", "SELECT metric_name, last_time_update, count_free, typeof(metric_name) FROM flood_limits ORDER BY metric_name, typeof(metric_name)")
 		for rows.Next() {
 			n, _ := rows.ColumnBlobString(0)
 			t, _ := rows.ColumnInt64(1)
 			cf, _ := rows.ColumnInt64(2)
-			add("flood %q last=%d free=%d", n, t, cf)
+			ty, _ := rows.ColumnBlobString(3)
+			add("flood %q last=%d free=%d keytype=%s", n, t, cf, ty)
+		}
+		if rows.Error() != nil {
+			return cache, rows.Error()
+		}
+		rows = conn.Query("dump_mapping_types", "SELECT typeof(name), count(*) FROM mappings GROUP BY typeof(name) ORDER BY 1")
+		for rows.Next() {
+			ty, _ := rows.ColumnBlobString(0)
+			n, _ := rows.ColumnInt64(1)
+			add("mappingtypes %s=%d", ty, n)
 		}
 		return cache, rows.Error()
 	})
